@@ -15,12 +15,12 @@ func c07DHCP(entry string, n []uint64, f []string) string {
 		p, err := Parse(data)
 		if err != nil {
 			if strings.HasPrefix(err.Error(), "packet too short") {
-				return "err 1"
+				return "err"
 			}
 			if strings.HasPrefix(err.Error(), "invalid magic") {
-				return "err 2"
+				return "err"
 			}
-			return "err 9"
+			return "err"
 		}
 		toks := []string{c07U(uint64(p.Op)), c07U(uint64(p.HType)), c07U(uint64(p.HLen)), c07U(uint64(p.Hops)),
 			c07U(uint64(p.XID)), c07U(uint64(p.Secs)), c07U(uint64(p.Flags)), c07TB(p.CIAddr), c07TB(p.YIAddr),
